@@ -24,9 +24,16 @@ def load_json(path, default):
 def run_property(pid, tier="quick", seed=0, update=False):
     t0 = time.time()
     spec = registry.PROPS[pid]
-    units = list(spec.get("verus", []))
-    if tier == "thorough":
-        units += [u for u in spec.get("verus_thorough", []) if u not in units]
+    fn_filter = {}
+    units = []
+    for ent in list(spec.get("verus", [])) + (list(spec.get("verus_thorough", [])) if tier == "thorough" else []):
+        if isinstance(ent, (tuple, list)):
+            u, fns = ent
+            fn_filter[u] = set(fns)
+        else:
+            u = ent
+        if u not in units:
+            units.append(u)
     results = {}
     with cf.ThreadPoolExecutor(max_workers=8) as ex:
         futs = {ex.submit(verus.verify_unit, u, True, None, seed): u for u in units}
@@ -64,7 +71,15 @@ def run_property(pid, tier="quick", seed=0, update=False):
         if r.status == "undecided":
             undecided.append("%s: %s" % (u, r.reason))
             continue
-        names = [o.name for o in r.obligations]
+        all_names = [o.name for o in r.obligations]
+        if u in fn_filter:
+            # only the functions this property depends on (the unit's other functions belong to other properties)
+            keep = fn_filter[u]
+            r.obligations = [o for o in r.obligations if o.fn in keep]
+            r.failed = {k: v for k, v in r.failed.items() if k in set(o.name for o in r.obligations)}
+            r.scaffold_failures = [sf for sf in r.scaffold_failures if any((":%s:" % f) in sf or ("fn %s" % f.split(".")[-1]) in sf for f in keep)]
+            r.items = [i for i in r.items if i["path"].replace("::", ".") in keep or i["path"].split("::")[-1] in keep or i["kind"] not in ("fn", "impl_fn")]
+        names = all_names
         if update:
             committed_obl[u] = sorted(names)
             committed_asm[u] = sorted(set("%s|%s" % (a["kind"], a["item"]) for a in r.assumptions))
